@@ -39,16 +39,25 @@ def _vc_component(R: Report, pid: str, tier: str, only=None):
     res = discharge(eng.obligations, timeout, cross_check=(tier == "thorough"))
     failed_by_fn = {}
     tags = set()
+    covers = {}
+    for k, ob in eng.obligations.items():
+        if ob.expect_sat:
+            covers.setdefault((ob.name, ob.case), []).append((ob, res[k]))
+    # a cover is a reachability sanity check: one reachable path per (function, case) is enough; it is a vacuity
+    # failure only when every path to that exit is unreachable
+    for (name, case), lst in covers.items():
+        sts = [r["status"] for _, r in lst]
+        ob, r = lst[0]
+        if "sat" in sts:
+            R.obligation(name, ob.kind, "discharged", "VC", "z3", max(x["time"] for _, x in lst), ob.clause, ob.loc, ob.tags)
+        elif all(s_ == "unsat" for s_ in sts):
+            R.machinery.append(f"vacuity: cover {name} [{case}] is unreachable (contradictory precondition or axioms)")
+        else:
+            R.obligation(name, ob.kind, "cover-inconclusive", "VC", "z3", 0.0, ob.clause, ob.loc)
     for k, ob in eng.obligations.items():
         r = res[k]
         tags.update(ob.tags)
         if ob.expect_sat:
-            if r["status"] == "sat":
-                R.obligation(ob.name, ob.kind, "discharged", "VC", r["backend"], r["time"], ob.clause, ob.loc, ob.tags)
-            elif r["status"] == "unsat":
-                R.machinery.append(f"vacuity: cover {ob.name} [{ob.case}] is unreachable (contradictory precondition or axioms)")
-            else:
-                R.obligation(ob.name, ob.kind, "cover-inconclusive", "VC", r["backend"], r["time"], ob.clause, ob.loc)
             continue
         if r["status"] == "unsat":
             if r.get("cvc5") == "sat":
